@@ -90,7 +90,8 @@ def run_shard(args):
             phases.append(Phase.shrink)
 
         def body(case):
-            if time.time() > deadline:
+            # (never skip once a failure has been seen: Hypothesis replays it and a skipped replay looks flaky)
+            if time.time() > deadline and state["fail"] is None:
                 out["budget_skipped"] += 1
                 return
             out["evaluations"] += 1
